@@ -189,6 +189,28 @@ def codec_checks(chk, rnd, tier):
         chk.add_violation("hash-under-overlapping-queries", {"queries": [q["sql"] for q in cq], "doc": {"t": rows}, "goroutines": 8,
                                                              "first": co.get("first"), "impl": {k: co.get(k) for k in ("r", "mismatches", "msg")}})
         return
+    # CHANGETYPE: string <-> double round trips (explored on the implementation: Go's float printing / parsing is outside the
+    # Lean model) over magnitudes on both sides of the %v exponent thresholds, and the texts a double may be written as
+    xs = [0, 1, -2.5, 0.1, 123456.789, 999999, 1000000, 1234567, 1e21, 1.5e300, 0.0001, 0.00001, 1.5e-7, -3.25e10, 2**53]
+    xs += [rnd.choice([1, -1]) * rnd.random() * 10 ** rnd.randint(-9, 22) for _ in range(20 if tier == "quick" else 300)]
+    rt = run_go([{"op": "query", "doc": enc_val({"t": [{"x": x}]}),
+                  "sql": "SELECT CHANGETYPE(CHANGETYPE(x, 'string'), 'double') AS d, CHANGETYPE(x, 'string') AS s, x FROM t"} for x in xs])
+    for x, o in zip(xs, rt):
+        chk.count("changetype-roundtrip:" + str(o.get("r")))
+        row = dec_val(o["v"])[0] if o.get("r") == "ok" and dec_val(o["v"]) else None
+        if row is None or not isinstance(row.get("s"), str) or canon(row.get("d")) != canon(float(x)):
+            chk.add_violation("changetype-string-double-roundtrip", {"value": x, "impl": o,
+                                                                     "sql": "SELECT CHANGETYPE(CHANGETYPE(x, 'string'), 'double') AS d FROM t"})
+            return
+    texts = ["1e3", "2.5e-3", "1.5e+06", "12", "1.5", "-0.25", "1E2", "0.000001", "123456789012"]
+    tt = run_go([{"op": "query", "doc": {}, "sql": "SELECT CHANGETYPE(%s, 'double') AS d FROM dual" % sql_str(t)} for t in texts])
+    for t, o in zip(texts, tt):
+        chk.count("changetype-text:" + str(o.get("r")))
+        row = dec_val(o["v"]) if o.get("r") == "ok" else None
+        got = row[0].get("d") if isinstance(row, list) and row else (row.get("d") if isinstance(row, dict) else None)
+        if o.get("r") != "ok" or canon(got) != canon(float(t)):
+            chk.add_violation("changetype-text-to-double", {"text": t, "impl": o})
+            return
     # unknown base / algorithm are errors
     bad = run_go([{"op": "query", "doc": {}, "sql": "SELECT ENCODE('x','base99') AS v FROM dual"},
                   {"op": "query", "doc": {}, "sql": "SELECT DECODE('00','base99') AS v FROM dual"},
